@@ -32,7 +32,19 @@ type DepCase struct {
 
 var subC09 = register("C09", "depacketizers", checkC09)
 
-var c09Receivers = []string{"h264", "h264avc", "h264zero", "h265", "h265donl", "vp8", "vp9", "av1", "av1packet", "av1packet-alias", "opus", "headcheckers"}
+var c09Receivers = []string{"h264", "h264avc", "h264zero", "h265", "h265donl", "vp8", "vp9", "av1", "av1packet", "av1packet-alias", "opus", "headcheckers",
+	"h265zero", "vp8zero", "vp9zero", "av1zero"}
+
+// The "...zero" receivers run in zero-allocation mode (SetZeroAllocation(true), documented as a reduced feature
+// set): no panic, and the bytes returned / error-ness equal a fresh receiver's; metadata is not compared.
+func baseRecv(name string) string {
+	switch name {
+	case "h265zero", "vp8zero", "vp9zero", "av1zero":
+		return name[:len(name)-4]
+	}
+
+	return name
+}
 
 // receiver abstracts one depacketizer instance for the generic relations.
 type receiver struct {
@@ -53,6 +65,17 @@ func vp9Meta(p *codecs.VP9Packet) string {
 }
 
 func newReceiver(name string) *receiver {
+	if base := baseRecv(name); base != name {
+		rc := newReceiverMode(base, true)
+		rc.name, rc.meta = name, nil
+
+		return rc
+	}
+
+	return newReceiverMode(name, false)
+}
+
+func newReceiverMode(name string, zero bool) *receiver {
 	switch name {
 	case "h264", "h264avc", "h264zero":
 		p := &codecs.H264Packet{IsAVC: name == "h264avc"}
@@ -64,20 +87,24 @@ func newReceiver(name string) *receiver {
 	case "h265", "h265donl":
 		p := &codecs.H265Packet{}
 		p.WithDONL(name == "h265donl")
+		p.SetZeroAllocation(zero)
 
 		return &receiver{name: name, unmarshal: p.Unmarshal, head: p.IsPartitionHead, tail: p.IsPartitionTail, meta: func() string {
 			return h265Meta(p)
 		}}
 	case "vp8":
 		p := &codecs.VP8Packet{}
+		p.SetZeroAllocation(zero)
 
 		return &receiver{name: name, unmarshal: p.Unmarshal, head: p.IsPartitionHead, tail: p.IsPartitionTail, meta: func() string { return vp8Meta(p) }}
 	case "vp9":
 		p := &codecs.VP9Packet{}
+		p.SetZeroAllocation(zero)
 
 		return &receiver{name: name, unmarshal: p.Unmarshal, head: p.IsPartitionHead, tail: p.IsPartitionTail, meta: func() string { return vp9Meta(p) }}
 	case "av1":
 		p := &codecs.AV1Depacketizer{}
+		p.SetZeroAllocation(zero)
 
 		return &receiver{name: name, unmarshal: p.Unmarshal, head: p.IsPartitionHead, tail: p.IsPartitionTail, meta: func() string {
 			return fmt.Sprintf("Z%v Y%v N%v", p.Z, p.Y, p.N)
@@ -157,7 +184,7 @@ func h265Meta(p *codecs.H265Packet) string {
 }
 
 func perPacketFormat(name string) bool {
-	switch name {
+	switch baseRecv(name) {
 	case "vp8", "vp9", "h265", "h265donl", "opus":
 		return true
 	}
@@ -166,7 +193,7 @@ func perPacketFormat(name string) bool {
 }
 
 func carriesState(name string) bool {
-	switch name {
+	switch baseRecv(name) {
 	case "h264", "h264avc", "av1":
 		return true
 	}
@@ -235,7 +262,7 @@ func checkC09(r *run, c *DepCase) (CaseInfo, error) {
 
 					return ci, nil
 				}
-				if err == nil {
+				if err == nil && fresh.meta != nil {
 					if fm := fresh.meta(); fm != meta {
 						if e := r.finding(reuseKey(c.Receiver), "%s: metadata of a reused receiver differs from a fresh one:\n reused: %s\n fresh:  %s", what, meta, fm); e != nil {
 							return ci, e
@@ -256,7 +283,7 @@ func checkC09(r *run, c *DepCase) (CaseInfo, error) {
 				}
 				if (err != nil) != (terr != nil) || !bytes.Equal(outCopy, tout) || meta != tmeta {
 					key := "retained-input"
-					if c.Receiver == "av1" {
+					if baseRecv(c.Receiver) == "av1" {
 						key = "F13-av1-depacketizer-buffer-aliases-input"
 					}
 					if e := r.finding(key, "%s: result (%s, err %v, %s) differs from a twin fed pristine copies (%s, err %v, %s): state carried over from an earlier input buffer that has since been overwritten", what, hx(outCopy), err, meta, hx(tout), terr, tmeta); e != nil {
@@ -282,7 +309,7 @@ func checkC09(r *run, c *DepCase) (CaseInfo, error) {
 }
 
 func reuseKey(recv string) string {
-	if recv == "vp9" {
+	if baseRecv(recv) == "vp9" {
 		return "F12-vp9-packet-reuse-accumulates"
 	}
 
@@ -292,6 +319,7 @@ func reuseKey(recv string) string {
 // ---- valid payload seeds per receiver
 
 func genValidTrain(t *rapid.T, recv string) [][]byte {
+	recv = baseRecv(recv)
 	switch recv {
 	case "h264", "h264avc", "h264zero":
 		var call H264Call
@@ -376,6 +404,7 @@ func genLengthLie(t *rapid.T, recv string) []byte {
 	be16 := func(v int) []byte { return []byte{byte(v >> 8), byte(v)} }
 	k := rapid.IntRange(1, 4).Draw(t, "lieunits")
 	var b []byte
+	recv = baseRecv(recv)
 	switch recv {
 	case "h264", "h264avc", "h264zero", "headcheckers", "opus":
 		b = []byte{0x18 | byte(rapid.IntRange(0, 3).Draw(t, "lienri"))<<5}
@@ -513,6 +542,9 @@ func enumC09(r *run, maxLen int) bool {
 	idx := 0
 	for _, recv := range c09Receivers {
 		for l := 0; l <= maxLen; l++ {
+			if l > 2 && baseRecv(recv) != recv {
+				break // zero-allocation variants: strings up to 2 bytes in both tiers
+			}
 			cnt := 1 << (8 * uint(l))
 			for v := 0; v < cnt; v++ {
 				idx++
@@ -543,7 +575,7 @@ func enumC09(r *run, maxLen int) bool {
 	return true
 }
 
-const ruleC09 = "rapid draws a receiver (H264Packet Annex-B/AVC/zero-allocation, H265Packet +-DONL, VP8Packet, VP9Packet, AV1Depacketizer, AV1Packet + frame.AV1 directly or through pkg/frame, OpusPacket, the deprecated PartitionHeadChecker types) and 1-8 steps Unmarshal/IsPartitionHead/IsPartitionTail over payloads that are nil, empty, random (1-60 bytes), valid (library payloader output fed mostly in order, reference-built descriptors/payloads, AV1 trains of an independent encoder with W=0 and counted forms) or 1-2 byte mutations of valid ones; plus every byte string of length <=2 (quick) / <=3 (thorough) against every receiver. Oracle: no panic, input unmodified; per-packet formats: result, error-ness and all metadata equal a fresh receiver's; H264Packet/AV1Depacketizer: each input buffer is overwritten after the call and every result (and AV1 Z/Y/N) must equal a twin's that got pristine copies. Non-trivial = >=2 accepted payloads on one receiver, every enumerated string; distinct = FNV-64 of the JSON case"
+const ruleC09 = "rapid draws a receiver (H264Packet Annex-B/AVC/zero-allocation, H265Packet +-DONL, VP8Packet, VP9Packet, AV1Depacketizer, AV1Packet + frame.AV1 directly or through pkg/frame, OpusPacket, H265/VP8/VP9/AV1 depacketizers in zero-allocation mode (bytes and error-ness only), the deprecated PartitionHeadChecker types) and 1-8 steps Unmarshal/IsPartitionHead/IsPartitionTail over payloads that are nil, empty, random (1-60 bytes), valid (library payloader output fed mostly in order, reference-built descriptors/payloads, AV1 trains of an independent encoder with W=0 and counted forms) or 1-2 byte mutations of valid ones; plus every byte string of length <=2 (quick) / <=3 (thorough) against every receiver. Oracle: no panic, input unmodified; per-packet formats: result, error-ness and all metadata equal a fresh receiver's; H264Packet/AV1Depacketizer: each input buffer is overwritten after the call and every result (and AV1 Z/Y/N) must equal a twin's that got pristine copies. Non-trivial = >=2 accepted payloads on one receiver, every enumerated string; distinct = FNV-64 of the JSON case"
 
 func TestC09(t *testing.T) {
 	r := begin(t, "C09", "exploration", ruleC09)
